@@ -10,6 +10,7 @@ import Yabgp.Lemmas.Compose
 import Yabgp.Props.C04
 import Yabgp.Props.C11b
 import Yabgp.Props.C11p
+import Yabgp.Props.C11q
 
 namespace Yabgp
 
